@@ -73,19 +73,21 @@ def outcome_of(strategy, reads, lib, sc, nh):
         recs = list(recs)
     except Exception as e:
         return [2, exc_kind(e)], None
+    failed = False
     for k, r in enumerate(recs):
-        if k >= width:
-            out.append(['', ''])   # zip() never touches it
+        if k >= width or failed:
+            out.append([1, '', ''])   # zip() never touches it / write() already raised
             continue
         try:
             cell = ''
             if sc:
                 cell = f"{r.tags.get('bi', 'no_cell_id')}.{r.tags.get('MX', 'unk')}"
-            out.append([cell, str(r)])
+            out.append([1, cell, str(r)])
         except Exception as e:
             if k == 0:
-                return [2, exc_kind(e)], None
-            return [3, exc_kind(e)], None   # first mate written, a later one failed: outside the model
+                return [2, exc_kind(e)], None     # nothing written: the try-block raised
+            out.append([0, '', exc_kind(e)])      # PARTIAL write: earlier mates are already in the target file
+            failed = True
     return [0, out], None
 
 
@@ -130,7 +132,8 @@ def run_case(n, c):
         strategies = dmx.getSelectedStrategiesFromStringList(c['use'], verbose=False)
         res['order'] = [s.shortName for s in strategies]
         nh = 2 if c['pe_handle'] else 1
-        target = FastqHandle(os.path.join(d, 'demultiplexed'), c['pe_handle'], single_cell=c['sc'])
+        target = FastqHandle(os.path.join(d, 'demultiplexed'), c['pe_handle'], single_cell=c['sc'],
+                             maxHandles=c.get('max_handles', 500))   # demux.py -fh, default 500
         rej = FastqHandle(os.path.join(d, 'rejects'), c['pe_handle']) if c['rejects'] else None
         log = io.StringIO()
         try:
@@ -158,6 +161,8 @@ def run_case(n, c):
             with gzip.open(os.path.join(d, fn), 'rb') as h:
                 outs[fn] = h.read().decode('utf-8')
         res['out_files'] = outs
+        if c.get('spec_only'):
+            return res
         # ---- abstraction: outcome classes of the real strategies / reject formatter on the real pairs
         base = IlluminaBaseDemultiplexer(indexFileParser=dmx.indexParser, barcodeParser=dmx.barcodeParser, probe=None)
         outcomes, rejhdr = [], []
